@@ -8,7 +8,7 @@
     a stretch is part of the model and of the proof, not of the harness. *)
 From Spowtd Require Import Model.Matching Model.Flags Model.DepthView Proofs.RunsSpec
   Proofs.MatchingSpec Proofs.MatchStormsSpec Proofs.ClassifySpec Proofs.FlagsSpec Proofs.DepthViewSpec.
-From Spowtd Require Import Model.ClassifyCommand Proofs.ClassifyCommandSpec.
+From Spowtd Require Import Model.ClassifyCommand Proofs.ClassifyCommandSpec Proofs.DepthCommandSpec.
 Close Scope Q_scope.
 
 (** Every recorded storm (s,e) is a maximal run of heavy-rain flags s..e-1 and
@@ -94,3 +94,39 @@ Proof.
   split; [vm_compute; reflexivity|]. split; [vm_compute; reflexivity|].
   split; [left; reflexivity|]. vm_compute. intuition discriminate.
 Qed.
+
+(** * The depth of a storm row of the whole command
+
+    The rainfall table being the dataset's own ([rain_rows_of]: one row per
+    sample epoch e of each stretch, from e thru e + step, that sample's
+    intensity converted exactly to a rational), the depth the view attributes to
+    a storm row (start, thru) written by the command is the sum over j < k of
+    intensity(sample i + j) x step / 3600 ([own_steps_depth]), the k samples
+    i .. i+k-1 being exactly the steps start + j*step of that storm in its ONE
+    stretch: no step of another storm or of another stretch contributes and none
+    is missing (Proofs/DepthCommandSpec.v shows that the join of the view
+    selects exactly these k rows). *)
+Theorem C03_command_depth_is_sum_over_the_storms_own_steps : forall step thr_s thr_j ds scheds c,
+  loaded_ok step ds = true -> classify_command step thr_s thr_j ds scheds = Ok c ->
+  forall start thru, In (start, thru) (c_storm c) ->
+  exists s i k, In s ds /\ 1 <= k /\ i + k <= length (s_epochs s) /\
+    (forall j, j < k -> nth (i + j) (s_epochs s) 0%Z = (start + Z.of_nat j * step)%Z) /\
+    thru = (start + Z.of_nat k * step)%Z /\
+    is_run (heavy_flags thr_s (s_rain s)) i (i + k) /\
+    (view_depth start thru (rain_rows_of step ds) == own_steps_depth step s i k)%Q.
+Proof. exact command_depth_own_steps. Qed.
+Print Assumptions C03_command_depth_is_sum_over_the_storms_own_steps.
+
+(** Non-vacuity: both storms of the example (9 mm/h over two hourly steps of
+    stretch 1; 9 mm/h over the first step of stretch 2); the whole rainfall
+    table (9 rows) sums to 27.5 mm, so neither depth includes the other storm's
+    steps or the 0.5 mm/h step that follows the second storm. *)
+Example C03_command_depth_example :
+  In (1361325600, 1361332800)%Z (c_storm example_rows) /\
+  (view_depth 1361325600 1361332800 (rain_rows_of 3600 example_dataset) == 18)%Q /\
+  (own_steps_depth 3600 (nth 0 example_dataset (mkStretch 0 [] [] [])) 2 2 == 18)%Q /\
+  (view_depth 1361336400 1361340000 (rain_rows_of 3600 example_dataset) == 9)%Q /\
+  (own_steps_depth 3600 (nth 1 example_dataset (mkStretch 0 [] [] [])) 0 1 == 9)%Q /\
+  length (rain_rows_of 3600 example_dataset) = 9 /\
+  (qsum (map row_depth (rain_rows_of 3600 example_dataset)) == 55 # 2)%Q.
+Proof. split; [left; reflexivity|]. vm_compute. repeat split; reflexivity. Qed.
